@@ -236,6 +236,45 @@ ATTR_NAMES = ['k', 'id', 'name', 'long_name', 'units', 'x-1', '_p', 'xml:lang', 
 PI_TARGETS = ['tgt', 'xml-stylesheet', 'p1', '_x']
 
 
+def hyphen_comment(rng):
+    """comment text with hyphen runs of length 1..8 at the start, in the middle and at the end, mixed with other text"""
+    fill = lambda: rng.choice(['', 'a', ' ', 'x y', 'GR', 'Output ', ' START', '<', '&', '>', '\xe9', '.', '_', '- ', ' -'])
+    parts = []
+    if rng.random() < 0.4: parts.append('-' * rng.randint(1, 8))
+    for _ in range(rng.randint(0, 3)):
+        parts += [fill(), '-' * rng.randint(1, 8)]
+    parts.append(fill())
+    if rng.random() < 0.4: parts.append('-' * rng.randint(1, 8))
+    return ''.join(parts)
+
+
+def comment_progs(ctx):
+    """Every string over {'-', 'a', ' '} up to length 6 (thorough: 7), and hyphen runs of every length 1..8 at the
+    start / in the middle / at the end in several surroundings, as the text of one comment() call (XmlStream and
+    XhtmlStream; SVGWriter inherits the method) - plus two comments in a row and a comment after an open start tag."""
+    import itertools
+    texts = [''.join(t) for n in range(0, ctx.n(7, 8)) for t in itertools.product('-a ', repeat=n)]
+    for L in range(1, 9):
+        h = '-' * L
+        texts += [h + 'x', 'x' + h, 'x' + h + 'y', 'a ' + h + ' b', h + 'x' + h, ' Output C' + h + 'I START ', 'GR' + h, '<' + h + '>',
+                  '&' + h + '&', h + '\xe9' + h, h + ' ' + h, 'x' + h + 'y' + '-' * (9 - L) + 'z', '\n' + h + '\n', h + '>', '-' + ' ' + h]
+    for _ in range(ctx.n(300, 3000)):
+        texts.append(hyphen_comment(ctx.rng))
+    progs = []
+    for k, t in enumerate(texts):
+        kind = 'H' if k % 5 == 4 else 'X'
+        if k % 7 == 6:
+            ops = [['s', 'a', {}], ['m', t], ['m', t[::-1]], ['e', 'a']]
+        elif k % 7 == 5:
+            ops = [['s', 'a', {'k': 'v'}], ['s', 'b', {}], ['m', t], ['e', 'b'], ['c', 'x'], ['m', t]]
+        elif kind == 'H':
+            ops = [['m', t]]                     # inside the <html> element that XhtmlStream.__enter__ opens
+        else:
+            ops = [['s', 'a', {}], ['m', t], ['e', 'a']]
+        progs.append((kind, ops))
+    return progs
+
+
 def gen_tree_ops(ctx, p_illegal):
     """A random call sequence that forms one document element (possibly left open for __exit__).
     ops: ['s', name, attrs_dict] ['c', str] ['l', str] ['m', str] ['p', str] ['e', name] ['x'] ['b', str]
@@ -267,7 +306,8 @@ def gen_tree_ops(ctx, p_illegal):
                 ops.append(['l', rng.choice(['', 'plain', ' x ', 'a b\tc\nd', 'é', ']]', 'a]b'])])
             elif r < 0.84:
                 ops.append(['m', rng.choice([' note ', 'x', '', ' a - b ', 'CURVE:' + rand_string(rng, p_illegal), '-x', 'a<b&c'])
-                            if rng.random() < 0.8 else rng.choice([' a -- b ', 'x-', '--', '-', 'DEPT--X', '->']) ])
+                            if rng.random() < 0.6 else (rng.choice([' a -- b ', 'x-', '--', '-', 'DEPT--X', '->'])
+                                                        if rng.random() < 0.4 else hyphen_comment(rng))])
             elif r < 0.88:
                 ops.append(['p', rng.choice(PI_TARGETS) + rng.choice(['', ' ', ' data', ' a="b" ?', ' x?>y', ' ' + rand_string(rng, p_illegal)])])
             elif r < 0.92:
@@ -569,6 +609,10 @@ def run_xmlrun(ctx):
     progs = []
     for _ in range(ctx.n(2500, 30000)):
         progs.append(gen_tree_ops(ctx, ctx.rng.choice([0.0, 0.0, 0.0, 0.15, 0.4])))
+    cp = comment_progs(ctx)
+    progs += cp
+    ctx.count('comment_cases', len(cp))
+    ctx.extra['exhaustive_scope_comments'] = "comment(): every string over {'-','a',' '} up to length %d; hyphen runs of length 1..8 at start/middle/end" % (ctx.n(7, 8) - 1)
     nerr = ctx.n(600, 6000)
     for _ in range(nerr):
         progs.append(gen_error_ops(ctx))
